@@ -104,6 +104,25 @@ static void gen_T(const KnotC &c, vf::Obs &o) {
   auto r1 = g1.template generateBSplines<p>();
   auto r2 = g2.template generateBSplines<p>();
   auto r3 = bspline::generateBSplines<p>(kt);
+  // generation must not depend on what the generator or the grid object was used for before: second call on the same
+  // generator, on a copy, and knots+grid routes whose Grid object comes out of an earlier result / the generator itself
+  {
+    auto again = g1.template generateBSplines<p>();
+    VCHECK(o, again == r1, "a second generateBSplines call on the same generator returns a different basis");
+    const bool more = ((c.gaps.size() + (size_t)(c.off < 0 ? -c.off : c.off) + c.gexp.size()) % 4) == 0;  // the costlier variants on a quarter of the cases
+    if (!r1.empty()) {
+      bspline::BSplineGenerator<T> g4(kt, r1.front().getSupport().getGrid());
+      VCHECK(o, g4.template generateBSplines<p>() == r1, "knots + a grid object taken from an earlier basis function gives a different basis");
+    }
+    if (more) {
+      bspline::BSplineGenerator<T> gcopy(g1);
+      VCHECK(o, gcopy.template generateBSplines<p>() == r1, "a copy of a used generator returns a different basis");
+      bspline::BSplineGenerator<T> g3(kt, g1.getGrid());
+      VCHECK(o, g3.template generateBSplines<p>() == r1, "knots + the first generator's own grid object gives a different basis");
+      if (!r1.empty()) { bspline::BSplineGenerator<T> g5(kt, r1.back().getSupport().getGrid()); VCHECK(o, g5.template generateBSplines<p>() == r1, "knots + the grid object of the last basis function gives a different basis"); }
+    }
+    if (more) if constexpr (p >= 1) { auto lower = g1.template generateBSplines<p - 1>(); VCHECK(o, lower.size() == kt.size() - p, "lower-order basis from a used generator has the wrong size"); VCHECK(o, g1.template generateBSplines<p>() == r1, "basis changes after the generator produced another order"); }
+  }
   const size_t want = m - p - 1;
   VCHECK(o, r1.size() == want && r2.size() == want && r3.size() == want, "number of functions " << r1.size() << "/" << r2.size() << "/" << r3.size() << " expected m-p-1 = " << want);
   VCHECK(o, g1.getGrid() == own && g2.getGrid() == own, "generator grid is not the de-duplicated knot vector");
@@ -324,7 +343,7 @@ static rc::Gen<KnotC> gen_knots(bool exact_only, int max_extra) {
 }
 
 int main(int argc, char **argv) {
-  vf::add_sub<KnotC>("exact", 1200, gen_knots(true, 8), check_gen);
+  vf::add_sub<KnotC>("exact", 900, gen_knots(true, 8), check_gen);
   vf::add_sub<KnotC>("exact-long", 120, gen_knots(true, 30), check_gen);  // long knot vectors (up to p+31 knots)
   vf::add_sub<KnotC>("float-types", 600, gen_knots(false, 8), check_gen);
   int rc = vf::main_impl(argc, argv, "C01");
